@@ -125,7 +125,9 @@ func (c *Connection) healthCheck(connID uint32) {
 		}
 
 		ctx, cancel := context.WithTimeout(c.healthCheckCtx, opts.Timeout)
+		c.healthCheckPinging.Store(true)
 		err := c.ping(ctx)
+		c.healthCheckPinging.Store(false)
 		cancel()
 		c.healthCheckHistory.add(err == nil)
 		if err == nil {
@@ -172,5 +174,11 @@ func (c *Connection) stopHealthCheck() {
 	}
 	c.log.Debug("Stopping health checks.")
 	c.healthCheckQuit()
+	if c.healthCheckPinging.Load() {
+		// The caller may be the health checker itself: a ping that cannot be sent
+		// (full send buffer) fails the connection from inside the checker, which
+		// cannot wait for its own exit. It returns as soon as its ping does.
+		return
+	}
 	<-c.healthCheckDone
 }
